@@ -412,7 +412,8 @@ REAL__xer_body_decode(const asn_TYPE_descriptor_t *td, void *sptr,
 
 	(void)td;
 
-	if(!chunk_size) return XPBD_BROKEN_ENCODING;
+	/* White space around the XMLSpecialRealValue */
+	if(!chunk_size) return XPBD_NOT_BODY_IGNORE;
 
 	/*
 	 * Decode an XMLSpecialRealValue: <MINUS-INFINITY>, etc.
